@@ -81,7 +81,34 @@ def alphabet_big():
         assign("$f0", S(Y, C(5))),
         yield_(V("$f0"), comp="f"),
         assign("b", V("i"), loops=[["i", V("n"), C(4)]]),
+        assign("fl", CMP("<", Y, C(2))),                               # a logical temporary used as a guard by itself
+        if_(V("fl")),
+        if_(["not", V("fl")]),
+        assign("fl", CMP(">", Y, C(7))),
     ]
+
+
+def guard_family():
+    """Conditionals whose body overwrites what the condition reads (the guard is a snapshot taken at the if_ call),
+    for every condition form, with and without an else branch."""
+    forms = [
+        (CMP("<", Y, C(2)), [], assign("<state>y", S(Y, C(5)))),
+        (V("fl"), [assign("fl", CMP("<", Y, C(2)))], assign("fl", CMP(">", Y, C(7)))),
+        (["not", V("fl")], [assign("fl", CMP(">=", Y, C(2)))], assign("fl", CMP("<", Y, C(9)))),
+        (["and", [V("fl"), CMP("<", V("<dt>"), C(3))]], [assign("fl", CMP("<", Y, C(2)))], assign("fl", CMP(">", Y, C(7)))),
+        (["or", [V("fl"), CMP(">", V("<dt>"), C(1))]], [assign("fl", CMP("<", Y, C(2)))], assign("<dt>", C(1))),
+    ]
+    tails = [[yield_(Y, comp="in")], [assign("<state>y", S(Y, C(10))), yield_(Y, comp="in")],
+             [if_(CMP("<", Y, C(100))), yield_(Y, comp="nested"), {"op": "endif"}]]
+    out = []
+    for cond, setup, overwrite in forms:
+        for tail in tails:
+            for with_else in (False, True):
+                prog = setup + [if_(cond), overwrite] + tail + [{"op": "endif"}]
+                if with_else:
+                    prog += [{"op": "else"}, assign("<state>y", S(Y, C(1))), yield_(Y, comp="else"), {"op": "endelse"}]
+                out.append(prog + [yield_(Y, comp="after")])
+    return out
 
 
 INPUTS = {"<t>", "<dt>", "<state>y", W}
@@ -187,6 +214,9 @@ def run(chk):
         nxt = rng.choice(["p0", "p0", "p1"])
         for inp, bound in inputs(rng, 2):
             jobs.append((make_method(calls, p1=p1, next0=nxt), inp, bound))
+    for calls in guard_family():
+        for inp, bound in inputs(rng, 4 if chk.quick else 30):
+            jobs.append((make_method(calls), inp, bound))
     chk.stage("generate")
     with multiprocessing.Pool(NCPU) as pool:
         results = pool.map(run_case, jobs, chunksize=40)
